@@ -137,6 +137,10 @@ def make_plan(rng, name, n, max_size=200, gates=GATES):
         size = rng.choice([0, 1, 5, 40, rng.randint(0, max_size)])
         body = ("%s:%d:" % (name, i)).encode() + rng.randbytes(size)
         plan.append((body, rng.choice(gates)))
+    if n >= 2 and rng.random() < 0.3:
+        # one genuinely empty message (legal, and falsy): still identifiable because there is only one
+        i = rng.randrange(n)
+        plan[i] = (b"", plan[i][1])
     return plan
 
 
